@@ -40,11 +40,21 @@ def _cases(draw, tier):
     kw = {}
     if name in ('lmb', 'lsb', 'mincostlsb'):
         kw['na'] = draw(st.sampled_from([3, 3, 3, 2]))
+    forced = name in ('mincost', 'minsqcost', 'mincostlsb', 'minsize', 'gen') and pct(draw) < 60
+    if forced:
+        # minimising criteria are trivially optimised by the empty matching unless lower
+        # quotas or stability force students in: make those the common case
+        kw['cls'] = draw(st.sampled_from(['lower_quotas', 'lower_quotas', 'two_agent', 'generic']))
+        kw['min_len'] = draw(st.sampled_from([1, 2, 3]))
     inst = draw(strategies.instances(strategies.SIZES[tier], **kw))
+    if forced and kw['cls'] != 'lower_quotas' and inst['lprefs'] is None:
+        forced = False
     lecmult = (name in ('mincost', 'minsqcost') and inst['lprefs'] is not None
                and pct(draw) < 50)
+    want_stab = True if (forced and kw['cls'] != 'lower_quotas') else None
     opts = draw(strategies.option_sets(inst, min_crit=1, max_crit=1, names=[name],
-                                       twopl=True if lecmult else None))
+                                       twopl=True if (lecmult or want_stab) else None,
+                                       stab=want_stab))
     if lecmult:
         opts['crit'][0][2] = [draw(st.sampled_from([0, 1, 2, 3])),
                               draw(st.sampled_from([1, 2, 3]))]
@@ -118,6 +128,12 @@ def run_case(case):
     (name, args), = c.criteria
     feas, best, vec = check_optimum(c, c.criteria)
     labels = _lp.base_labels(c, case) + ['args=%d' % len(args)]
+    if name in ('mincost', 'minsqcost', 'mincostlsb'):
+        y = args[0] if len(args) > 0 else 1
+        z = args[1] if len(args) > 1 else (1 if name == 'mincostlsb' else 0)
+        labels.append('%s:second_multiplier_%s' % (name, 'zero' if z == 0 else 'nonzero'))
+        if c.opts['twopl'] and name != 'mincostlsb':
+            labels.append('%s:twopl:%s' % (name, 'default_args' if len(args) < 2 else 'explicit'))
     if not feas:
         return Result(False, labels + ['infeasible'])
     # the statistic line the criterion speaks about must agree with the matching
